@@ -75,8 +75,11 @@ REF_PROGRAMS = {
 EVENTS = [("ext", "E1", {"p": "ab", "q": [1, {"z": 2}]}), ("ext", "E2", {"n": 1, "p": "abc"}), ("ext", "E3", {}), ("ext", "X", {})]
 
 
+_EXTRA_EVENTS = []     # per task: the hierarchy hosts of C06 end their second activator on E4
+
+
 def alphabet(state):
-    evs = list(EVENTS)
+    evs = list(EVENTS) + _EXTRA_EVENTS
     for k in range(min(2, len(v2x.pending_actions(state)))):
         evs.append(("act", k, "Finished", {"return_value": "rv"}))
     return evs
@@ -166,6 +169,7 @@ def _short(o):
 
 def explore(task):
     name, src, depth, cont = task
+    _EXTRA_EVENTS[:] = [("ext", "E4", {})] if (name.startswith("c06:") and "E4()" in src) else []
     stats = {"programs": 1, "states": 0, "transitions": 0, "cuts_save_restore": 0, "cuts_age": 0,
              "lockstep_steps": 0, "lockstep_steps_with_output": 0, "aged_cuts_that_discarded_instances": 0,
              "traces_validated_against_impl": 0}
